@@ -23,6 +23,15 @@
 //!     client call must then answer `ExchangeOffline(<mocked exchange>)`, open / cancel responses
 //!     echoing the request; the ledger is no longer observable, `post` repeats the last one.
 //!     `cancel` (mode run only) sends a cancel request, which the mock does not support.
+//!     BURSTS (mode run only): requests marked `"bq": 1` are QUEUED TOGETHER with the request before
+//!     them: every client future of the burst is polled once (the request is then in the exchange's
+//!     channel, stamped with its own client time), and only then are the responses awaited, in queue
+//!     order, and the account stream drained. One line `{"a":"burst","k":k,"reqs":[request + answer
+//!     ..],"post":..}` is written: the ledger and the notification history are observed once, after
+//!     the whole burst. The burst's notifications are re-paired (j-th balance notification with j-th
+//!     trade notification: how the two kinds interleave is left open, the order within a kind is not).
+//!     `"late": 1` in a scenario's init: `MockExchange::run` is spawned only after the first request
+//!     (or burst) has been queued - the requests are already waiting when the exchange starts.
 //!
 //! One NDJSON line per request: the request, the answer, the query result and `post` = the
 //! projected ledger. Amounts are integer 1/100 units, times are ms offsets from the harness epoch.
@@ -52,7 +61,7 @@ use barter_instrument::{
 };
 use chrono::{DateTime, Utc};
 use fnv::FnvHashMap;
-use futures::{FutureExt, StreamExt, stream::BoxStream};
+use futures::{FutureExt, StreamExt, future::LocalBoxFuture, stream::BoxStream};
 use rand::Rng;
 use rust_decimal::Decimal;
 use serde_json::{Value, json};
@@ -325,10 +334,29 @@ enum Sut {
         client: MockExecution<Clock>,
         stream: BoxStream<'static, UnindexedAccountEvent>,
         lat: i64,
-        task: tokio::task::JoinHandle<()>,
+        /// the running `MockExchange::run` task
+        task: Option<tokio::task::JoinHandle<()>>,
+        /// `"late"`: the exchange, built but not yet running
+        pending: Option<Box<MockExchange>>,
         killed: bool,
     },
 }
+
+/// `"late"` worlds: spawn `MockExchange::run` now (the requests queued so far are waiting for it)
+fn start(pending: &mut Option<Box<MockExchange>>, task: &mut Option<tokio::task::JoinHandle<()>>) {
+    if let Some(ex) = pending.take() {
+        *task = Some(tokio::spawn(ex.run()));
+    }
+}
+fn abort(task: &Option<tokio::task::JoinHandle<()>>) {
+    if let Some(t) = task {
+        t.abort();
+    }
+}
+fn finished(task: &Option<tokio::task::JoinHandle<()>>) -> bool {
+    task.as_ref().map(|t| t.is_finished()).unwrap_or(false)
+}
+const GONE: &str = "the MockExchange::run task terminated (panic in the request loop)";
 
 struct Answer {
     out: Value,
@@ -374,8 +402,12 @@ impl Sut {
                     event_rx,
                 });
                 let stream = client.account_stream(&[], &[]).await.expect("account stream");
-                let task = tokio::spawn(MockExchange::new(config, request_rx, event_tx, instruments(spec_flavour(init))).run());
-                Sut::Run { client, stream, lat: i(init, "lat"), task, killed: false }
+                let mut pending = Some(Box::new(MockExchange::new(config, request_rx, event_tx, instruments(spec_flavour(init)))));
+                let mut task = None;
+                if !is_late(init) {
+                    start(&mut pending, &mut task);
+                }
+                Sut::Run { client, stream, lat: i(init, "lat"), task, pending, killed: false }
             }
             m => usage(&format!("unknown mode {m}")),
         }
@@ -430,11 +462,12 @@ impl Sut {
                     o => usage(&format!("op {o} is not available in mode direct")),
                 }
             }
-            Sut::Run { client, stream, lat, task, killed } => {
+            Sut::Run { client, stream, lat, task, pending, killed } => {
                 CLIENT_CLOCK_MS.store(t, Ordering::SeqCst);
                 let flag = r.get("drop").and_then(|d| d.as_i64()).unwrap_or(0);
                 if op == "kill" {
-                    task.abort();
+                    start(pending, task);
+                    abort(task);
                     *killed = true;
                     // the aborted task (and with it the request receiver) is dropped when it is next scheduled
                     tokio::time::sleep(std::time::Duration::from_millis(1)).await;
@@ -462,6 +495,7 @@ impl Sut {
                             let _ = futures::poll!(fut.as_mut()); // queues the request, then waits
                             drop(fut); // the requester stops waiting before the exchange task ran
                         }
+                        start(pending, task);
                         // nobody awaits an answer: let the exchange handle it and its latency pass
                         tokio::time::sleep(std::time::Duration::from_millis(*lat as u64 + 1)).await;
                         Answer::plain("lost")
@@ -472,7 +506,7 @@ impl Sut {
                             key: OrderKey { exchange: req.key.exchange, instrument: &req.key.instrument, strategy: req.key.strategy.clone(), cid: req.key.cid.clone() },
                             state: req.state.clone(),
                         };
-                        let resp = call(client.open_order(req_ref), inflight, task).await;
+                        let resp = call(client.open_order(req_ref), inflight, task, pending).await;
                         let (out, why, id, filled, rt) = response_json(&resp);
                         Answer { out, why, id, filled, rt, echo: echoes(&resp, &req), res: empty_res(), notifs: vec![] }
                     }
@@ -483,7 +517,7 @@ impl Sut {
                             key: OrderKey { exchange: EXCHANGE, instrument: &instrument, strategy: key.strategy.clone(), cid: key.cid.clone() },
                             state: RequestCancel { id: None },
                         };
-                        let resp = call(client.cancel_order(req), inflight, task).await;
+                        let resp = call(client.cancel_order(req), inflight, task, pending).await;
                         let mut a = Answer::plain(match &resp.state {
                             Ok(_) => "cancelled",
                             Err(UnindexedOrderError::Rejected(_)) => "rej",
@@ -492,7 +526,7 @@ impl Sut {
                         a.echo = (resp.key == key) as i64;
                         a
                     }
-                    "snapshot" => match call(client.account_snapshot(&[], &[]), inflight, task).await {
+                    "snapshot" => match call(client.account_snapshot(&[], &[]), inflight, task, pending).await {
                         Ok(snap) => {
                             let mut res = empty_res();
                             res["bal"] = bal_json(snap.balances.iter());
@@ -501,7 +535,7 @@ impl Sut {
                         }
                         Err(e) => Answer::failed(&e),
                     },
-                    "balances" => match call(client.fetch_balances(), inflight, task).await {
+                    "balances" => match call(client.fetch_balances(), inflight, task, pending).await {
                         Ok(b) => {
                             let mut res = empty_res();
                             res["bal"] = bal_json(b.iter());
@@ -509,7 +543,7 @@ impl Sut {
                         }
                         Err(e) => Answer::failed(&e),
                     },
-                    "orders" => match call(client.fetch_open_orders(), inflight, task).await {
+                    "orders" => match call(client.fetch_open_orders(), inflight, task, pending).await {
                         Ok(o) => {
                             let mut res = empty_res();
                             res["open"] = Value::Array(o.iter().map(open_order_json).collect());
@@ -517,7 +551,7 @@ impl Sut {
                         }
                         Err(e) => Answer::failed(&e),
                     },
-                    "trades" => match call(client.fetch_trades(time_ms(i(r, "since"))), inflight, task).await {
+                    "trades" => match call(client.fetch_trades(time_ms(i(r, "since"))), inflight, task, pending).await {
                         Ok(tr) => {
                             let mut res = empty_res();
                             res["trades"] = Value::Array(tr.iter().map(trade_json).collect());
@@ -540,12 +574,130 @@ impl Sut {
                 answer.notifs.sort_by(|a, b| a["k"].as_str().cmp(&b["k"].as_str()));
                 // an exchange the harness did not end must be alive and answering (a running exchange
                 // answers a cancel by dropping the response sender: "offline" is its normal answer)
-                if !*killed && (task.is_finished() || (answer.out == "offline" && op != "cancel")) {
-                    return Err("the MockExchange::run task terminated (panic in the request loop)".into());
+                if !*killed && (finished(task) || (answer.out == "offline" && op != "cancel")) {
+                    return Err(GONE.into());
                 }
                 Ok(answer)
             }
         }
+    }
+
+    /// Serve a burst (mode run): every request is queued before any response is awaited.
+    /// Returns the answers in queue order and the notifications of the whole burst.
+    async fn burst(&mut self, reqs: &[Value], n0: u64) -> Result<(Vec<Answer>, Vec<Value>), String> {
+        let Sut::Run { client, stream, task, pending, killed, .. } = self else { usage("bursts exist in mode run only") };
+        let client: &MockExecution<Clock> = client;
+        let mut futs: Vec<LocalBoxFuture<'_, Answer>> = vec![];
+        for (j, r) in reqs.iter().enumerate() {
+            let n = n0 + 1 + j as u64;
+            let r = r.clone();
+            futs.push(match op_of(&r) {
+                "open" => async move {
+                    let req = request_of(&r, n);
+                    let req_ref = OrderRequestOpen {
+                        key: OrderKey { exchange: req.key.exchange, instrument: &req.key.instrument, strategy: req.key.strategy.clone(), cid: req.key.cid.clone() },
+                        state: req.state.clone(),
+                    };
+                    let resp = client.open_order(req_ref).await;
+                    let (out, why, id, filled, rt) = response_json(&resp);
+                    Answer { out, why, id, filled, rt, echo: echoes(&resp, &req), res: empty_res(), notifs: vec![] }
+                }
+                .boxed_local(),
+                "cancel" => async move {
+                    let instrument = InstrumentNameExchange::new(s(&r, "instr"));
+                    let key = OrderKey { exchange: EXCHANGE, instrument: instrument.clone(), strategy: StrategyId::new("vh"), cid: ClientOrderId::new(format!("c{n}")) };
+                    let req = OrderRequestCancel {
+                        key: OrderKey { exchange: EXCHANGE, instrument: &instrument, strategy: key.strategy.clone(), cid: key.cid.clone() },
+                        state: RequestCancel { id: None },
+                    };
+                    let resp = client.cancel_order(req).await;
+                    let mut a = Answer::plain(match &resp.state {
+                        Ok(_) => "cancelled",
+                        Err(UnindexedOrderError::Rejected(_)) => "rej",
+                        Err(UnindexedOrderError::Connectivity(c)) => offline_str(c),
+                    });
+                    a.echo = (resp.key == key) as i64;
+                    a
+                }
+                .boxed_local(),
+                "snapshot" => async move {
+                    match client.account_snapshot(&[], &[]).await {
+                        Ok(snap) => {
+                            let mut res = empty_res();
+                            res["bal"] = bal_json(snap.balances.iter());
+                            res["open"] = snapshot_orders_json(&snap);
+                            Answer::query(res)
+                        }
+                        Err(e) => Answer::failed(&e),
+                    }
+                }
+                .boxed_local(),
+                "balances" => async move {
+                    match client.fetch_balances().await {
+                        Ok(b) => {
+                            let mut res = empty_res();
+                            res["bal"] = bal_json(b.iter());
+                            Answer::query(res)
+                        }
+                        Err(e) => Answer::failed(&e),
+                    }
+                }
+                .boxed_local(),
+                "orders" => async move {
+                    match client.fetch_open_orders().await {
+                        Ok(o) => {
+                            let mut res = empty_res();
+                            res["open"] = Value::Array(o.iter().map(open_order_json).collect());
+                            Answer::query(res)
+                        }
+                        Err(e) => Answer::failed(&e),
+                    }
+                }
+                .boxed_local(),
+                "trades" => async move {
+                    match client.fetch_trades(time_ms(i(&r, "since"))).await {
+                        Ok(tr) => {
+                            let mut res = empty_res();
+                            res["trades"] = Value::Array(tr.iter().map(trade_json).collect());
+                            Answer::query(res)
+                        }
+                        Err(e) => Answer::failed(&e),
+                    }
+                }
+                .boxed_local(),
+                o => usage(&format!("op {o} cannot be part of a burst")),
+            });
+        }
+        // queue every request (each stamped with its own client time); nothing is awaited yet
+        let mut answers: Vec<Option<Answer>> = vec![];
+        for (r, f) in reqs.iter().zip(futs.iter_mut()) {
+            CLIENT_CLOCK_MS.store(i(r, "t"), Ordering::SeqCst);
+            answers.push(match futures::poll!(f.as_mut()) {
+                std::task::Poll::Ready(a) => Some(a), // (an ended exchange: the client answers at once)
+                std::task::Poll::Pending => None,
+            });
+        }
+        // requests queued before the exchange runs: it starts now
+        start(pending, task);
+        // now the responses, in queue order
+        let mut got = vec![];
+        for (a, f) in answers.into_iter().zip(futs.into_iter()) {
+            got.push(match a {
+                Some(a) => a,
+                None => f.await,
+            });
+        }
+        tokio::time::sleep(std::time::Duration::from_millis(1)).await;
+        let mut arrived = vec![];
+        while let Some(Some(ev)) = stream.next().now_or_never() {
+            arrived.push(notif_json(&ev));
+        }
+        for (r, a) in reqs.iter().zip(got.iter()) {
+            if !*killed && (finished(task) || (a.out == "offline" && op_of(r) != "cancel")) {
+                return Err(GONE.into());
+            }
+        }
+        Ok((got, repair(arrived)))
     }
 
     fn is_killed(&self) -> bool {
@@ -562,9 +714,15 @@ impl Sut {
                 "trades": Value::Array(ex.account.trades(DateTime::<Utc>::MIN_UTC).map(trade_json).collect()),
             }))),
             Sut::Run { killed: true, .. } => Ok(None),
+            // built, not yet running: the value itself shows its ledger
+            Sut::Run { pending: Some(ex), .. } => Ok(Some(json!({
+                "bal": bal_json(ex.account.balances()),
+                "open": Value::Array(ex.account.orders_open().map(open_order_json).chain(ex.account.orders_cancelled().map(cancelled_order_json)).collect()),
+                "trades": Value::Array(ex.account.trades(DateTime::<Utc>::MIN_UTC).map(trade_json).collect()),
+            }))),
             Sut::Run { client, .. } => {
                 // same client clock as the request just served: the exchange clock does not move
-                let off = |_| "the MockExchange::run task terminated (panic in the request loop)".to_string();
+                let off = |_| GONE.to_string();
                 let bal = client.fetch_balances().await.map_err(off)?;
                 let snap = client.account_snapshot(&[], &[]).await.map_err(off)?;
                 let trades = client.fetch_trades(DateTime::<Utc>::MIN_UTC).await.map_err(off)?;
@@ -580,16 +738,44 @@ impl Sut {
 
 /// Await a client call; `inflight`: poll it once (the request is queued), end the exchange task,
 /// then keep waiting - the requester sees its response sender dropped.
-async fn call<F: std::future::Future>(fut: F, inflight: bool, task: &tokio::task::JoinHandle<()>) -> F::Output {
+/// `pending`: the exchange is not running yet - poll the call once (the request is queued), then spawn it.
+async fn call<F: std::future::Future>(
+    fut: F,
+    inflight: bool,
+    task: &mut Option<tokio::task::JoinHandle<()>>,
+    pending: &mut Option<Box<MockExchange>>,
+) -> F::Output {
     let mut fut = Box::pin(fut);
-    if inflight {
+    if inflight || pending.is_some() {
         let first = futures::poll!(fut.as_mut());
-        task.abort();
+        start(pending, task);
+        if inflight {
+            abort(task);
+        }
         if let std::task::Poll::Ready(v) = first {
             return v;
         }
     }
     fut.await
+}
+
+/// The notifications of one burst, re-paired: j-th balance notification, j-th trade notification, ... (what is left
+/// over of either kind, and anything else, follows). How the two kinds interleave is left open; the order within a
+/// kind is what arrived.
+fn repair(arrived: Vec<Value>) -> Vec<Value> {
+    let of = |k: &str| arrived.iter().filter(|n| n["k"] == k).cloned().collect::<Vec<_>>();
+    let (b, t) = (of("balance"), of("trade"));
+    let mut out = vec![];
+    for j in 0..b.len().max(t.len()) {
+        out.extend(b.get(j).cloned());
+        out.extend(t.get(j).cloned());
+    }
+    out.extend(arrived.iter().filter(|n| n["k"] != "balance" && n["k"] != "trade").cloned());
+    out
+}
+
+fn is_late(init: &Value) -> bool {
+    init.get("late").map(|l| l.as_i64() == Some(1) || l.as_bool() == Some(true)).unwrap_or(false)
 }
 
 fn op_of(r: &Value) -> &str {
@@ -624,7 +810,7 @@ impl Segment {
             post["notif"] = json!([]);
         }
         out.line(&json!({
-            "a": "Reset", "fee": i(init, "fee"), "lat": i(init, "lat"),
+            "a": "Reset", "fee": i(init, "fee"), "lat": i(init, "lat"), "late": (mode == "run" && is_late(init)) as i64,
             "cfg": {"bal": init["bal"], "open": init["open"]},
             "post": post,
         }));
@@ -707,9 +893,69 @@ impl Segment {
         post
     }
 
+    /// A burst of requests queued together (mode run): one line, one observation of the ledger.
+    async fn burst(&mut self, out: &mut Out, reqs: &[Value]) -> Value {
+        if reqs.len() == 1 || self.direct {
+            let mut post = self.post();
+            for r in reqs {
+                post = self.step(out, r).await;
+            }
+            return post;
+        }
+        let mut items: Vec<Value> = reqs
+            .iter()
+            .map(|r| {
+                json!({
+                    "a": op_of(r), "t": i(r, "t"), "side": s(r, "side"), "p": i(r, "p"), "q": i(r, "q"),
+                    "instr": s(r, "instr"), "kind": s(r, "kind"), "since": i(r, "since"), "drop": 0,
+                })
+            })
+            .collect();
+        let served = if self.dead { Err("the exchange is gone after an earlier panic".to_string()) } else { self.sut.burst(reqs, self.n).await };
+        self.n += reqs.len() as u64;
+        match served {
+            Ok((answers, notifs)) => {
+                for (it, a) in items.iter_mut().zip(answers) {
+                    it["out"] = a.out;
+                    it["why"] = a.why;
+                    it["id"] = a.id;
+                    it["filled"] = a.filled;
+                    it["rt"] = a.rt;
+                    it["echo"] = json!(a.echo);
+                    it["res"] = a.res;
+                }
+                self.notif.extend(notifs);
+                match self.sut.project().await {
+                    Ok(Some(p)) => self.ledger = p,
+                    Ok(None) => {}
+                    Err(p) => {
+                        self.dead = true;
+                        self.ledger = json!({"panic": p});
+                    }
+                }
+            }
+            Err(p) => {
+                self.dead = true;
+                for it in items.iter_mut() {
+                    it["out"] = json!("panic");
+                    it["why"] = json!("-");
+                    it["id"] = json!(-1);
+                    it["filled"] = json!(0);
+                    it["rt"] = json!(-1);
+                    it["echo"] = json!(1);
+                    it["res"] = empty_res();
+                }
+                self.ledger = json!({"panic": p});
+            }
+        }
+        let post = self.post();
+        out.line(&json!({"a": "burst", "k": reqs.len(), "reqs": items, "post": post.clone()}));
+        post
+    }
+
     fn end(self) {
         if let Sut::Run { task, .. } = self.sut {
-            task.abort();
+            abort(&task);
         }
     }
 }
@@ -838,24 +1084,96 @@ fn query_round(rng: &mut rand::rngs::StdRng, post: &Value, t: i64) -> Vec<Value>
     v
 }
 
+/// Can this request be part of a burst? (not the end of the exchange task, not an abandoned / in-flight-kill request)
+fn burstable(r: &Value) -> bool {
+    op_of(r) != "kill" && r.get("drop").and_then(|d| d.as_i64()).unwrap_or(0) == 0
+}
+
+/// Maximal runs `r, r' (bq=1), r'' (bq=1) ..` of burstable requests; everything else stands alone.
+fn bursts_of(reqs: &[Value], run: bool) -> Vec<&[Value]> {
+    let mut groups = vec![];
+    let mut a = 0;
+    while a < reqs.len() {
+        let mut b = a + 1;
+        while run && b < reqs.len() && burstable(&reqs[b - 1]) && burstable(&reqs[b]) && reqs[b].get("bq").and_then(|x| x.as_i64()) == Some(1) {
+            b += 1;
+        }
+        groups.push(&reqs[a..b]);
+        a = b;
+    }
+    groups
+}
+
+/// A burst of 2-4 requests for the random driver: opens that spend the same asset (the same request again: the
+/// second may find the funds gone), opens on other assets, rejected ones, a query queued between two opens.
+fn random_burst(rng: &mut rand::rngs::StdRng, world: &Value, post: &Value, t: i64) -> Vec<Value> {
+    let k = rng.random_range(2..=4);
+    let mut first = random_request(rng, world, post, t);
+    if rng.random_bool(0.8) {
+        // mostly start from a market order on a listed instrument
+        for _ in 0..6 {
+            if op_of(&first) == "open" && s(&first, "kind") == "market" && s(&first, "instr") != UNLISTED {
+                break;
+            }
+            first = random_request(rng, world, post, t);
+        }
+    }
+    let mut v = vec![first.clone()];
+    let mut tt = t;
+    while v.len() < k {
+        // client times within a burst: equal, later, or earlier
+        tt = match rng.random_range(0..6) {
+            0 => (tt - 1).max(0),
+            1..=3 => tt,
+            _ => tt + rng.random_range(1..=2),
+        };
+        let mut r = match rng.random_range(0..10) {
+            0..=3 => first.clone(),
+            4..=5 => {
+                let op = ["balances", "snapshot", "trades", "orders"][rng.random_range(0..4)];
+                query_req(op, tt, if rng.random_bool(0.6) { 0 } else { rng.random_range(0..=tt + 3) })
+            }
+            _ => random_request(rng, world, post, tt),
+        };
+        r["t"] = json!(tt);
+        r["bq"] = json!(1);
+        v.push(r);
+    }
+    v
+}
+
 #[tokio::main(flavor = "current_thread", start_paused = true)]
 async fn main() {
     let args = Args::parse();
     let mode = args.str("mode", "direct");
     let mut out = Out::create(args.req("out"));
     let mut segments = 0usize;
+    let mut bursts = 0usize;
     match args.cmd.as_str() {
         "run" => {
             // --abandon K (mode run): every K-th open-order request of the scenarios is abandoned
             let every = if mode == "run" { args.usize("abandon", 0) } else { 0 };
+            // --late K (mode run): every K-th scenario starts its exchange after the first request / burst was queued
+            let late_every = if mode == "run" { args.usize("late", 0) } else { 0 };
             let mut opens = 0usize;
             let mut kills = 0usize;
-            for scn in read_ndjson(args.req("scenarios")) {
+            for (idx, mut scn) in read_ndjson(args.req("scenarios")).into_iter().enumerate() {
+                // mode run: every third generated world starts its exchange late - after the first request
+                // (or burst) has been queued (a recorded scenario says itself whether it did)
+                if mode == "run" && scn["init"].get("late").is_none() && scn["init"].get("up").and_then(|u| u.as_bool()) != Some(false) {
+                    scn["init"]["late"] = json!((late_every > 0 && idx % late_every == late_every - 1) as i64);
+                }
                 let (mut seg, _) = Segment::start(&mut out, &mode, &scn["init"]).await;
                 segments += 1;
                 let mut pending_inflight = false;
-                for e in scn["evs"].as_array().expect("evs") {
+                let mut reqs: Vec<Value> = vec![];
+                let evs = scn["evs"].as_array().expect("evs");
+                // `bq`: queued together with the request before it (on the event, or in the scenario's `bq` list)
+                let bq_of = |k: usize| evs.get(k).and_then(|e| e.get("bq").or_else(|| scn.get("bq").and_then(|b| b.get(k)))).and_then(|b| b.as_i64()).unwrap_or(0);
+                for (k, e) in evs.iter().enumerate() {
                     let mut r = e.get("req").unwrap_or(e).clone();
+                    let bq = bq_of(k);
+                    r["bq"] = json!(bq);
                     // every other generated "kill" strikes while the request after it is in flight
                     if mode == "run" && every > 0 && op_of(&r) == "kill" && r.get("drop").is_none() {
                         kills += 1;
@@ -867,13 +1185,17 @@ async fn main() {
                     if pending_inflight && op_of(&r) != "kill" {
                         r["drop"] = json!(3);
                         pending_inflight = false;
-                    } else if mode == "run" && every > 0 && op_of(&r) == "open" && r.get("drop").is_none() {
+                    } else if mode == "run" && every > 0 && op_of(&r) == "open" && r.get("drop").is_none() && bq == 0 && bq_of(k + 1) == 0 {
                         opens += 1;
                         if opens % every == 0 {
                             r["drop"] = json!(1 + (opens / every) % 2);
                         }
                     }
-                    seg.step(&mut out, &r).await;
+                    reqs.push(r);
+                }
+                for group in bursts_of(&reqs, mode == "run") {
+                    bursts += (group.len() > 1) as usize;
+                    seg.burst(&mut out, group).await;
                 }
                 seg.end();
             }
@@ -884,7 +1206,10 @@ async fn main() {
             let seglen = args.usize("seglen", 30);
             let mut done = 0;
             while done < steps {
-                let world = random_world(&mut rng);
+                let mut world = random_world(&mut rng);
+                if mode == "run" && world["up"] == json!(true) {
+                    world["late"] = json!(rng.random_bool(0.3) as i64);
+                }
                 let (mut seg, mut post) = Segment::start(&mut out, &mode, &world).await;
                 segments += 1;
                 let mut t: i64 = rng.random_range(0..5);
@@ -901,6 +1226,18 @@ async fn main() {
                         2..=3 => t,
                         _ => t + rng.random_range(1..=4),
                     };
+                    if mode == "run" && !rounds.contains(&k) && kill_at.map(|(at, _)| at != k).unwrap_or(true) && rng.random_range(0..5) == 0 {
+                        let b = random_burst(&mut rng, &world, &post, t);
+                        t = b.iter().map(|r| i(r, "t")).max().unwrap_or(t);
+                        bursts += 1;
+                        done += b.len();
+                        k += b.len();
+                        post = seg.burst(&mut out, &b).await;
+                        if post.get("panic").is_some() {
+                            break;
+                        }
+                        continue;
+                    }
                     let batch = if rounds.contains(&k) { query_round(&mut rng, &post, t) } else { vec![random_request(&mut rng, &world, &post, t)] };
                     for mut r in batch {
                         if mode == "run" && op_of(&r) == "open" && rng.random_range(0..8) == 0 {
@@ -927,5 +1264,5 @@ async fn main() {
         c => usage(&format!("unknown command {c}")),
     }
     let n = out.finish();
-    println!("{}", json!({"lines": n, "segments": segments, "mode": mode}));
+    println!("{}", json!({"lines": n, "segments": segments, "bursts": bursts, "mode": mode}));
 }
